@@ -58,6 +58,28 @@ def cfg_value(v):
     raise TypeError(v)
 
 
+def run_apalache(module, inv, length=0, timeout=600, tmp=None):
+    """apalache-mc check --inv=<inv> --length=<length> on spec/<module>.tla; returns (holds: bool, text)"""
+    import shutil
+    exe = shutil.which("apalache-mc")
+    if exe is None:
+        raise MachineryError("apalache-mc not found")
+    own = tmp is None
+    tmp = tmp or tempfile.mkdtemp(prefix="verif-apa-")
+    try:
+        p = subprocess.run([exe, "check", "--inv=%s" % inv, "--length=%d" % length, "--out-dir=%s" % os.path.join(tmp, "apa-out"),
+                            os.path.join(SPEC, module + ".tla")], cwd=tmp, capture_output=True, text=True, timeout=timeout)
+        text = p.stdout + p.stderr
+        if "The outcome is: NoError" in text:
+            return True, text
+        if "The outcome is: Error" in text and "violated" in text:
+            return False, text
+        raise MachineryError("apalache failed on %s/%s:\n%s" % (module, inv, text[-1500:]))
+    finally:
+        if own:
+            shutil.rmtree(tmp, ignore_errors=True)
+
+
 class TLCResult:
     def __init__(self):
         self.generated = 0
